@@ -1237,7 +1237,19 @@ func (g *gen) chain() *Func {
 	tainted := false // cur may be a NaN whose payload and sign the spec leaves open
 	var names []string
 	clean := func(o *OpInfo) bool {
-		return g.cfg.Excluded == nil || !g.cfg.Excluded(o.Name, "any")
+		if g.cfg.Excluded == nil {
+			return true
+		}
+		if g.cfg.Excluded(o.Name, "any") {
+			return false
+		}
+		// findings grouped under a root-cause name (Config.Group) are found through their classes
+		for _, cls := range []string{"nan", "+0/-0", "oor", "u>=2^63", ">=2^63", "min/-1", "div0", "tie", "edge", "big"} {
+			if op, cl := g.cfg.KeyOf(o.Name, cls); g.cfg.Excluded(op, cl) {
+				return false
+			}
+		}
+		return true
 	}
 	for k := 0; k < n; k++ {
 		o := g.pickNumeric("cop", func(o *OpInfo) bool {
